@@ -4,13 +4,13 @@ import itertools
 from hypothesis import strategies as st
 
 from .. import gen
-from ..driver import call
+from ..driver import call, stub
 from ..history import Run, draw_symbol
 from ..oracle.schema import parikh, schema
 from ..run import hyp_search, mix
 from .c01 import symbol_subset
 
-RULE = ('add-only histories in arbitrary order (add_child, add_child with forward, xml_* instance assignment), also with read-only to_string() calls between the additions, and additions after a removal (add a, add a, remove one, add b for all a, b of the subset): (a) ALL sequences of <=3 adds '
+RULE = ('add-only histories in arbitrary order (add_child, add_child with forward, xml_* instance assignment), also with read-only to_string() calls between the additions (the enumerated histories with reads are then finished with the completion computed by the oracle and must end like the same additions without the reads), and additions after a removal (add a, add a, remove one, add b for all a, b of the subset): (a) ALL sequences of <=3 adds '
         'over a deterministic 6-symbol subset of every type; (b) Hypothesis-drawn adaptive sequences (<=14 adds quick, '
         '<=30 thorough) where each next symbol is drawn from the oracle classes prefix / compatible / incompatible / '
         'foreign.  Oracle after every add that returned normally: completable(multiset of held names) on the '
@@ -39,6 +39,25 @@ def step(run, op):
     return None
 
 
+def completion_outcome(run):
+    """supply the oracle's shortest completion of the held children and serialise: 'ok' or what refused"""
+    if run.dfa is None or not run.names():
+        return 'n/a'
+    w = run.dfa.completion_of(parikh(run.names()))
+    if w is None:
+        return 'n/a'
+    have = parikh(run.names())
+    for a in w:
+        if have.get(a, 0) > 0:
+            have[a] -= 1
+            continue
+        r = call(run.e.add_child, stub(a))
+        if not r.ok:
+            return 'refused %s: %s' % (a, r.etype)
+    r = call(run.e.to_string)
+    return 'ok' if r.ok else 'to_string: %s' % r.etype
+
+
 def execute(el, ops):
     run = Run(el)
     if run.e is None:
@@ -52,7 +71,15 @@ def execute(el, ops):
 
 def replay_case(rec):
     inp = rec['input']
-    return execute(inp['element'], [list(o) for o in inp['ops']])[1]
+    ops = [list(o) for o in inp['ops']]
+    run, f = execute(inp['element'], ops)
+    if f is None and rec.get('kind') == 'read-changes-completability':
+        plain, _ = execute(inp['element'], [o for o in ops if o[0] != 'to_string'])
+        oa, ob = completion_outcome(run), completion_outcome(plain)
+        if oa != ob:
+            return {'kind': 'read-changes-completability', 'type': run.tkey, 'site': None, 'input': inp,
+                    'observed': {'with reads': oa, 'without reads': ob}, 'expected': 'the same outcome'}
+    return f
 
 
 def nontrivial(run):
@@ -87,6 +114,17 @@ def run_shard(ctx, shard, acc):
                     run, f = execute(els[0], ops)
                     if run.e is None:
                         break
+                    if read and f is None:
+                        # a read must not decide whether the accepted children can still be completed: the same
+                        # additions without the reads, both finished with the oracle's completion
+                        plain, _ = execute(els[0], [o for o in ops if o[0] != 'to_string'])
+                        if plain.names() == run.names():
+                            oa, ob = completion_outcome(run), completion_outcome(plain)
+                            if oa != ob:
+                                f = {'kind': 'read-changes-completability', 'type': run.tkey, 'site': None,
+                                     'input': {'element': run.el, 'ops': run.ops},
+                                     'observed': {'with reads': oa, 'without reads': ob},
+                                     'expected': 'the same outcome'}
                     # classify offers for the non-triviality rule
                     held = {}
                     for a, res in zip(combo, [r_ for o_, r_ in zip(run.ops, run.results) if o_[0] == 'add']):
